@@ -458,7 +458,7 @@ pub fn parse_mantissa<const FORMAT: u128>(num: Number, max_digits: usize) -> (Bi
     // Process the fraction digits.
     if let Some(fraction) = num.fraction {
         let mut fraction = fraction.bytes::<FORMAT>();
-        let mut fraction_iter = fraction.integer_iter();
+        let mut fraction_iter = fraction.fraction_iter();
         if count == 0 {
             // No digits added yet, can skip leading fraction zeros too.
             fraction_iter.skip_zeros();
